@@ -50,6 +50,8 @@ def marshaller(
     if not nodes:
         return routines.NoOpMarshaller(t=t, context=context, var=None)  # type: ignore[arg-type]
 
+    # The graph never emits a node for `Any`: members annotated with it pass through.
+    context[tp.Any] = routines.NoOpMarshaller(tp.Any, context=context, var=None)  # type: ignore[arg-type]
     # "root" type will always be the final node in the sequence.
     root = nodes[-1]
     for node in nodes:
